@@ -66,7 +66,7 @@ def run(ctx):
         raise vlib.Inconclusive("too few vectors: %d configurations" % len(cfgs))
     # Vacuity: every action of the model taken (TLC's coverage), every clause
     # of the verdict present in the tables.
-    cov = ctx.tlc("DnsFront", "DnsFront.cov.cfg", workers=2, timeout=600, coverage=True)
+    cov = ctx.tlc("DnsFront", "DnsFront.quick.cfg", workers=2, timeout=600, coverage=True)
     never = [l for l in cov.get("zero_cov", []) if "of module DnsFront:" in l or "of module DnsFront)" in l]
     acts = {}
     import re
